@@ -192,3 +192,55 @@ func VerifC10_Queue_TwoParkedTwoReleases() {
 	verif.Assert("two-releases-busy-is-tokens-owned", busy == nServed)
 	verif.Reach("end")
 }
+
+// verifWakeUpChain: the blocking (kind 0) / deadline (kind 1) limiter, limit 1 held by H.  Caller A
+// blocks; H completes once A is parked, so A is woken and granted on its retry; caller B arrives only
+// after A has RETURNED with the token (verif.SpawnAfterDone) and blocks behind it; A's token is
+// completed once B is parked.  Every listener handed out - also the one a caller obtains on the retry
+// after a wake-up - wakes the next waiter when it completes: at quiescence B is not blocked while
+// capacity is free.  (All arrivals are ordered, so the pinned tree's lost wake-up window - a
+// Broadcast before the helper goroutine's Wait ticket - cannot occur in this harness.)
+func verifWakeUpChain(kind int) {
+	inner, st := verifFullLimiter()
+	var lim core.Limiter
+	if kind == 0 {
+		lim = NewBlockingLimiter(inner, 0, nil)
+	} else {
+		lim = NewDeadlineLimiter(inner, verif.TimeAt(1<<60), nil)
+	}
+	held, ok := lim.Acquire(context.Background())
+	verif.Assert("setup-holds-the-only-token", ok && st.GetBusyCount() == 1)
+	var aL core.Listener
+	var aOK, bOK bool
+	verif.SpawnAfter("a", func() {
+		l, ok := lim.Acquire(context.Background())
+		if ok && l != nil {
+			aL, aOK = l, true
+		}
+	})
+	verif.SpawnAfter("h", func() { held.OnSuccess() }, "a")
+	verif.SpawnAfterDone("b", func() {
+		l, ok := lim.Acquire(context.Background())
+		bOK = ok && l != nil
+	}, "a")
+	verif.SpawnAfter("ac", func() {
+		if aOK {
+			aL.OnSuccess()
+		}
+	}, "b")
+	verif.Parallel()
+	busy := st.GetBusyCount()
+	verif.Assert("chain-next-waiter-woken", verif.Not(verif.And(verif.Blocked("b"), busy < 1)))
+	verif.Assert("chain-busy-is-tokens-owned", verif.Implies(verif.Not(verif.Blocked("b")), busy == verif.B2I(bOK)))
+	verif.Reach("end")
+}
+
+// VerifC10_Blocking_WakeUpChain
+//
+//verif:harness property=C10 theory=bv tier=quick timers=off unwind=3 unwindcut=1 clock=frozen maxpaths=60000
+func VerifC10_Blocking_WakeUpChain() { verifWakeUpChain(0) }
+
+// VerifC10_Deadline_WakeUpChain
+//
+//verif:harness property=C10 theory=bv tier=quick timers=off unwind=3 unwindcut=1 clock=frozen maxpaths=60000
+func VerifC10_Deadline_WakeUpChain() { verifWakeUpChain(1) }
